@@ -5,11 +5,52 @@
   `common/src/util.rs` (`impl_checked_add_signed!`) by extract/extract.py on every run.
   Stated for every width `n` at once; the six Rust instances are the rows of
   `checkedAddSignedInstances` (also extracted).
+
+  The proof of `C20_eq_spec` does not follow the shape of the extracted body: it splits the operands into the
+  regions on which every test such a body can make is constant (sign of `rhs`, carry of `self + rhs`, `rhs = 0`,
+  `rhs = MIN`), lets `omega` decide every `if` / `decide` / `match` there, and compares what is left with the
+  mathematical checked sum.  A rewrite of the macro body that means the same (wrapping_add + carry test + match,
+  checked_add / checked_sub on unsigned_abs, an early return, renamed locals, ...) is proved by the same script; one
+  that does not is not.
 -/
 import MediaSan.Generated.CheckedAddSigned
 namespace MediaSan.Props.C20
 open MediaSan.Generated MediaSan.Rust
 set_option linter.unusedSimpArgs false
+
+/-- mathematical checked addition of an unsigned `l` and a signed (two's complement) `r` of width `n` -/
+def spec {n : Nat} (l r : BitVec n) : Option (BitVec n) :=
+  if 0 ≤ (l.toNat : Int) + r.toInt ∧ (l.toNat : Int) + r.toInt < ((2 ^ n : Nat) : Int)
+  then some (BitVec.ofNat n ((l.toNat : Int) + r.toInt).toNat) else none
+
+/-- the extracted macro body IS mathematical checked addition, for every width and all operands -/
+theorem C20_eq_spec {n : Nat} (l r : BitVec n) : checkedAddSigned l r = spec l r := by
+  have hl := l.isLt; have hr := r.isLt
+  unfold checkedAddSigned spec
+  (try unfold overflowingAdd); (try unfold overflowingSub); (try unfold wrappingAdd); (try unfold wrappingSub)
+  (try unfold checkedAdd); (try unfold checkedSub); (try unfold saturatingAdd); (try unfold saturatingSub)
+  (try unfold unsignedAbs); (try unfold wrappingNeg); (try unfold saturatingNeg); (try unfold wrappingAbs)
+  (try unfold isNegative); (try unfold isPositive); (try unfold uMax); (try unfold asSelf)
+  (try unfold sLtLit); (try unfold sLeLit); (try unfold sGtLit); (try unfold sGeLit); (try unfold sEqLit); (try unfold sNeLit)
+  (try unfold uLtLit); (try unfold uLeLit); (try unfold uGtLit); (try unfold uGeLit); (try unfold uEqLit); (try unfold uNeLit)
+  (try unfold uLt); (try unfold uLe); (try unfold uGt); (try unfold uGe); (try unfold uEq); (try unfold uNe)
+  (try unfold sLt); (try unfold sLe); (try unfold sGt); (try unfold sGe); (try unfold sEq); (try unfold sNe)
+  simp only [toInt']
+  by_cases hs : 2 * r.toNat < 2 ^ n <;> by_cases hc : 2 ^ n ≤ l.toNat + r.toNat <;> by_cases hz : r.toNat = 0 <;>
+    by_cases hm : 2 * r.toNat = 2 ^ n
+  all_goals (
+    (try simp (disch := omega) only [if_pos, if_neg, decide_eq_true, decide_eq_false, toNat_add', toNat_sub', toNat_neg',
+      toNat_allOnes', toNat_zero', toNat_ofNat_lt,
+      Bool.xor_true, Bool.xor_false, Bool.true_xor, Bool.false_xor, Bool.not_true, Bool.not_false, Bool.false_eq_true,
+      Bool.true_and, Bool.and_true, Bool.false_and, Bool.and_false, Bool.true_or, Bool.or_true, Bool.false_or, Bool.or_false,
+      bne_self_eq_false, beq_self_eq_true, Bool.true_bne, Bool.false_bne, Bool.bne_true, Bool.bne_false,
+      and_self, and_true, true_and, not_true_eq_false, not_false_eq_true, if_true, if_false]) <;>
+    first
+    | (exfalso; omega)
+    | rfl
+    | (congr 1; apply BitVec.eq_of_toNat_eq
+       (try simp (disch := omega) only [toNat_add', toNat_sub', toNat_neg', toNat_allOnes', toNat_zero', toNat_ofNat_lt,
+         if_pos, if_neg]) <;> omega))
 
 /-- Full statement: the result is `some x` with `x = l + r` (mathematical sum, `r` signed) when
     that sum is representable in `n` bits, and `none` exactly otherwise. -/
@@ -17,20 +58,19 @@ theorem C20_exact {n : Nat} (l r : BitVec n) :
     match checkedAddSigned l r with
     | some x => (x.toNat : Int) = (l.toNat : Int) + r.toInt
     | none => (l.toNat : Int) + r.toInt < 0 ∨ (2:Int) ^ n ≤ (l.toNat : Int) + r.toInt := by
-  unfold checkedAddSigned overflowingAdd asSelf sLtLit
-  have hl := l.isLt
-  have hr := r.isLt
+  rw [C20_eq_spec]
   have hp : ((2 ^ n : Nat) : Int) = (2:Int) ^ n := by simp
-  have h1 : ¬ ((r.toNat : Int) < 0) := by omega
-  have h2 : ((r.toNat : Int) - ((2^n : Nat) : Int) < 0) := by omega
-  simp only [BitVec.toInt]
-  by_cases hc : 2 ^ n ≤ l.toNat + r.toNat <;> by_cases hs : 2 * r.toNat < 2 ^ n <;>
-    simp only [hc, hs, h1, h2, decide_true, decide_false, if_true, if_false, Bool.xor_false, Bool.xor_true,
-      Bool.not_true, Bool.not_false, Bool.false_eq_true, Bool.true_xor, Bool.false_xor, BitVec.toNat_add]
-  · right; rw [← hp]; omega
-  · rw [Nat.mod_eq_sub_mod hc, Nat.mod_eq_of_lt (by omega)]; omega
-  · rw [Nat.mod_eq_of_lt (by omega)]; omega
-  · left; omega
+  have hl := l.isLt
+  unfold spec
+  by_cases h : 0 ≤ (l.toNat : Int) + r.toInt ∧ (l.toNat : Int) + r.toInt < ((2 ^ n : Nat) : Int)
+  · rw [if_pos h]
+    show ((BitVec.ofNat n ((l.toNat : Int) + r.toInt).toNat).toNat : Int) = _
+    rw [toNat_ofNat_lt _ (by omega)]
+    omega
+  · rw [if_neg h]
+    show _ ∨ _
+    rw [← hp]
+    omega
 
 /-- `some` is returned exactly when the sum is representable, and then it is the sum. -/
 theorem C20_some_iff {n : Nat} (l r : BitVec n) (x : BitVec n) :
